@@ -31,19 +31,26 @@ Theorem C18_set_ellipsoid : forall a0 f0 w0 a f w,
   /\ Earth___init__ Rops (VObj cEarth [VNone]) (ell a f w) = earth a f w.
 Proof. intros. rewrite earth_new. split; [apply earth_set | reflexivity]. Qed.
 
-(* at sea level the observer lies on the meridian ellipse (rho cos phi')^2 + (rho sin phi' a/b)^2 = 1 *)
+(* at sea level the observer lies on the meridian ellipse (rho cos phi')^2 + (rho sin phi' a/b)^2 = 1,
+   on the side x > 0 and in the geocentric direction tan phi' = (b/a)^2 tan phi (these three facts
+   determine the point).  POLES EXCLUDED: the code computes atan(b/a tan phi); at phi = +-90 deg exactly
+   the real-number instance would evaluate Coq's junk value tan(pi/2) = 1 * /0 (Ideal.v has no domain
+   check for tan), so the hypothesis cos phi <> 0 is required.  In binary64 tan(radians(90)) is finite
+   (1.6e16) and the poles are covered by the oracle and the bit-exact correspondence. *)
 Theorem C18_on_ellipse : forall a f w, good_ellipsoid a f -> forall v d hv,
-  degval v d -> numval hv 0 ->
+  degval v d -> numval hv 0 -> cos (rad d) <> 0 ->
   exists x y b,
     Earth_rho_cosphi Rops (earth a f w) v hv = VFloat x /\
     Earth_rho_sinphi Rops (earth a f w) v hv = VFloat y /\
     Ellipsoid_b Rops (ell a f w) = VFloat b /\
-    x * x + (y * (a / b)) * (y * (a / b)) = 1.
+    x * x + (y * (a / b)) * (y * (a / b)) = 1 /\
+    0 < x /\
+    y * cos (rad d) = (1 - f) * (1 - f) * x * sin (rad d).
 Proof. exact on_ellipse_model. Qed.
 
-(* height h adds h/a (cos phi, sin phi) *)
+(* height h adds h/a (cos phi, sin phi) to the sea-level values of C18_on_ellipse (poles excluded as there) *)
 Theorem C18_height : forall a f w, good_ellipsoid a f -> forall v d hv h h0,
-  degval v d -> numval hv h -> numval h0 0 ->
+  degval v d -> numval hv h -> numval h0 0 -> cos (rad d) <> 0 ->
   exists x0 y0,
     Earth_rho_cosphi Rops (earth a f w) v h0 = VFloat x0 /\
     Earth_rho_sinphi Rops (earth a f w) v h0 = VFloat y0 /\
@@ -103,41 +110,51 @@ Proof.
   intros. split; [apply distance_coincident_float | intros; apply distance_coincident_angle].
 Qed.
 
-(* along the equator the distance is a |delta lambda| (radians), 0 < |delta lambda| < 180 deg *)
+(* along the equator the distance is a |delta lambda| (radians), 0 < |delta lambda| < 180 deg; the
+   second component is the code's error estimate round(dist f^2, 0) *)
 Theorem C18_distance_equator : forall a f w l1 l2, 0 < Rabs (l1 - l2) < 180 ->
-  (exists err,
-   Earth_distance Rops (earth a f w) (VFloat l1) (VFloat 0) (VFloat l2) (VFloat 0)
-   = VTuple [VFloat (a * (Rabs (l1 - l2) * (PI / 180))); VFloat err])
-  /\ forall t1 t2 t3 t4, exists err,
-   Earth_distance Rops (earth a f w) (ang l1 t1) (ang 0 t2) (ang l2 t3) (ang 0 t4)
-   = VTuple [VFloat (a * (Rabs (l1 - l2) * (PI / 180))); VFloat err].
+  Earth_distance Rops (earth a f w) (VFloat l1) (VFloat 0) (VFloat l2) (VFloat 0)
+  = VTuple [VFloat (a * (Rabs (l1 - l2) * (PI / 180)));
+            VFloat (Rround_nd (a * (Rabs (l1 - l2) * (PI / 180)) * f * f) 0)]
+  /\ forall t1 t2 t3 t4,
+  Earth_distance Rops (earth a f w) (ang l1 t1) (ang 0 t2) (ang l2 t3) (ang 0 t4)
+  = VTuple [VFloat (a * (Rabs (l1 - l2) * (PI / 180)));
+            VFloat (Rround_nd (a * (Rabs (l1 - l2) * (PI / 180)) * f * f) 0)].
 Proof.
   intros. split; [apply distance_equator_float; assumption
                  | intros; apply distance_equator_angle; assumption].
 Qed.
 
-(* the complete behaviour of Earth.distance on floats: 0 when s = 0, Andoyer's formula otherwise *)
+(* CLOSED FORM (pins the code): [dist_spec]/[andoyer] of C18_spec.v transcribe Earth.distance (incl. the
+   error estimate round(dist f^2, 0)); this theorem is no property by itself — it ties the code to the
+   formula from which symmetry / coincident / equator above are derived, and breaks when the code changes *)
 Theorem C18_distance_value : forall a f w l1 p1 l2 p2,
   Earth_distance Rops (earth a f w) (VFloat l1) (VFloat p1) (VFloat l2) (VFloat p2)
   = dist_spec a f l1 p1 l2 p2.
 Proof. exact dist_float_all. Qed.
 
-(* closed form of Earth.parallax_correction (after the repairs 2d034b9): with k = sin(8.794'')/distance,
+(* CLOSED FORM (pins the code; a transcription of the repaired code, no property by itself; observer
+   latitude +-90 deg exactly excluded: rho_sin/rho_cos go through tan, see C18_on_ellipse)
+   of Earth.parallax_correction (after the repairs 2d034b9): with k = sin(8.794'')/distance,
    (rho_cos, rho_sin) of the WGS84 observer, A = cos d - rho_cos k cos H, B = - rho_cos k sin H:
    delta_alpha = atan2(B, A), topocentric declination = atan2(sin d - rho_sin k, sqrt(A^2 + B^2)), both
    returned as Angles in degrees; the right ascension is the model's Angle.__add__ of the input and
    delta_alpha ([mk_tuple] is the model's tuple constructor) *)
 Theorem C18_parallax_correction_closed_form : forall ra t1 dec t2 lat t3 dist H t4 h, dist <> 0 ->
+  cos (rad lat) <> 0 ->
   Earth_parallax_correction Rops (ang ra t1) (ang dec t2) (ang lat t3) (VFloat dist) (ang H t4) (VFloat h)
   = mk_tuple
       [Angle___add__ Rops (ang ra t1)
          (ang (deg (topo_dalpha dec H (rho_cos a_wgs f_wgs h (rad lat)) (par_k dist))) tol0);
        ang (deg (topo_dec dec H (rho_cos a_wgs f_wgs h (rad lat)) (rho_sin a_wgs f_wgs h (rad lat)) (par_k dist))) tol0].
-Proof. exact parallax_correction_closed. Qed.
+Proof. intros. apply parallax_correction_closed. assumption. Qed.
 
 (* the topocentric declination of that closed form obeys a limit-free bound that vanishes as the
    distance grows: with q = rho |k| < 1 (rho = sqrt(rho_cos^2 + rho_sin^2), k = sin(8.794'')/distance),
-   |sin dec' - sin dec| <= 2 q / (1 - q), for every hour angle and declination (poles included) *)
+   |sin dec' - sin dec| <= 2 q / (1 - q), for every hour angle and every declination of the body (no tan is
+   involved in dec; rc, rs are arbitrary reals).  Note: 2q/(1-q) is about TWICE the horizontal parallax
+   asin(q): this shows the correction vanishes like 1/distance, it is weaker than the property's bound
+   (which stays searched only).  [topo_dec] is the expression of the closed form above. *)
 Theorem C18_parallax_declination_bound : forall dec H rc rs k,
   sqrt (rc * rc + rs * rs) * Rabs k < 1 ->
   Rabs (sin (topo_dec dec H rc rs k) - sin (rad dec))
